@@ -108,7 +108,7 @@ def main():
         via_sub = (n % 7 == 0)
         pr = check_pair(ref, snap, False, via_sub)
         sig = (tuple(sorted(ref.items())), tuple(sorted(snap.items())))
-        bat.case(hash(sig), nontrivial=(ref != snap))
+        bat.case(hash(sig), nontrivial=(ref != snap), desc={"ref": {k: list(v) for k, v in ref.items()}, "snap": {k: list(v) for k, v in snap.items()}})
         if pr:
             bat.fail("C09.diff-laws", pr[0], {"ref": ref, "snap": snap, "ignore_device": False, "via_sub": via_sub, "problems": pr[:3]}, "DirectorySnapshotDiff.__init__")
         if n % 5 == 0:
